@@ -302,6 +302,43 @@ func groupHistory(seed int64) rec {
 	return w.record(ids, false, true, "group kept busy by test.other while 2 requests arrive and the query event expires")
 }
 
+// shutdownHistory: Shutdown begins while a callback of the resource's group is running and the
+// query event expires meanwhile; whatever the library does with the final nil call, it must not
+// run beside the callback that is still inside.
+func shutdownHistory(seed int64) rec {
+	w := newWorld(seed, false, 3*time.Millisecond, false)
+	if !w.startQuery() {
+		w.close()
+		return nil
+	}
+	release := make(chan struct{})
+	inside := make(chan struct{})
+	w.svc.With("test.other", func(res.Resource) {
+		atomic.StoreInt32(&w.obs.busy, 1)
+		close(inside)
+		<-release
+		atomic.StoreInt32(&w.obs.busy, 0)
+	})
+	<-inside
+	sdDone := make(chan struct{})
+	go func() { w.svc.Shutdown(); close(sdDone) }()
+	time.Sleep(15 * time.Millisecond) // the query event expires while the service is stopping
+	close(release)
+	select {
+	case <-sdDone:
+	case <-time.After(3 * time.Second):
+	}
+	select {
+	case <-w.done:
+	case <-time.After(3 * time.Second):
+	}
+	res.VerifHook = nil
+	time.Sleep(5 * time.Millisecond)
+	r := w.record(nil, false, false, "Shutdown begins while test.other (same group) is inside a callback; the query event expires meanwhile")
+	r["judge"] = "serialized"
+	return r
+}
+
 // longHistory: many query events; afterwards nothing may be left running.
 func longHistory(seed int64, n int) rec {
 	w := newWorld(seed, false, time.Millisecond, false)
@@ -377,6 +414,11 @@ func Run(c *core.Ctx) {
 			recs = append(recs, rr)
 		}
 	}
+	for i := 0; i < c.Pick(3, 20); i++ {
+		if rr := shutdownHistory(c.Seed + int64(i)); rr != nil {
+			recs = append(recs, rr)
+		}
+	}
 	for _, n := range []int{1, 10, c.Pick(60, 200)} {
 		recs = append(recs, longHistory(c.Seed, n))
 	}
@@ -410,6 +452,27 @@ func Run(c *core.Ctx) {
 		c.Sample(recs[0])
 		c.Sample(recs[len(recs)-1])
 	}
+}
+
+// RunGroupClause is the part of C01 that concerns query events: query-request and query-expiry
+// callbacks belong to the resource's worker group. Only the clause "serialized" is judged.
+func RunGroupClause(c *core.Ctx) {
+	var recs []interface{}
+	for i := 0; i < c.Pick(4, 30); i++ {
+		for _, rr := range []rec{groupHistory(c.Seed + int64(i)), shutdownHistory(c.Seed + int64(i))} {
+			if rr != nil {
+				rr["judge"] = "serialized"
+				recs = append(recs, rr)
+			}
+		}
+	}
+	core.CheckRecords(c, "TraceQueryObs", "TraceQueryObs.cfg", recs, nil, func(i int, r interface{}, inv string) {
+		m := r.(rec)
+		c.Violate(core.Violation{Signature: map[string]string{"engine": "qevent", "kind": "serialized"},
+			Text: fmt.Sprintf("a query callback ran while another callback of the resource's group was inside: callbacks %v [%v]", m["cblog"], m["dbg"]), Replay: m})
+	})
+	c.AddCount("traces_validated_against_impl", len(recs))
+	c.Cover("query_callback_group_records", len(recs))
 }
 
 func simulate(c *core.Ctx, num int) [][]sched.Step {
